@@ -71,7 +71,8 @@ theorem applyOp_congr (o o' : Opts) (hn : o.neg = o'.neg) (he : o.ensure = o'.en
     applyOp o size acc d op = applyOp o' size acc d op := by
   unfold applyOp
   cases hp : parsePointer op.path with
-  | none => rfl
+  | none =>
+    simp only [hk, false_and, if_false, atParent_congr o o' hn, removeIn_congr o o' hn, getIn_congr o o' hn]
   | some path =>
     simp only []
     cases hk' : op.kind with
@@ -92,7 +93,24 @@ theorem applyOp_noncopy (o : Opts) (size acc : Nat) (d : Value) (op : Op) (hk : 
     applyOp o size acc d op = (applyOp o 0 0 d op).bind fun p => .ok (p.1, acc) := by
   unfold applyOp
   cases hp : parsePointer op.path with
-  | none => rfl
+  | none =>
+    simp only []
+    split
+    · rfl
+    · cases hk' : op.kind with
+      | copy => exact absurd hk' hk
+      | move =>
+        simp only []
+        cases parsePointer op.frm with
+        | none => rfl
+        | some frm =>
+          cases frm with
+          | nil => rfl
+          | cons t ts => simp only []; cases atParent o (removeIn o) d (t :: ts) <;> rfl
+      | add => rfl
+      | remove => rfl
+      | replace => rfl
+      | test => rfl
   | some path =>
     simp only []
     cases hk' : op.kind with
@@ -182,17 +200,29 @@ def copyTail (o : Opts) (size acc : Nat) (d : Value) (path : List Bytes) (v : Va
       if o.limit > 0 ∧ acc' > o.limit then .fail .copyLimit
       else (atParent o (addIn o v) d path).bind fun (d', _) => .ok (d', acc')
 
+/-- `copy` whose destination pointer is outside RFC 6901: the source half is evaluated first, its
+failure is the one reported (whatever `size` and `acc` are) -/
+def copyBadDest (o : Opts) (d : Value) (frm : Bytes) : Res (Value × Nat) :=
+  match parsePointer frm with
+  | none => .fail .parentUnreachable
+  | some [] => .fail .parentUnreachable
+  | some frm => (atParent o (getIn o false) d frm).bind fun _ => .fail .parentUnreachable
+
 theorem applyOp_copy (o : Opts) (size acc : Nat) (d : Value) (op : Op) (hk : op.kind = .copy) :
     applyOp o size acc d op =
       match parsePointer op.path with
-      | none => .unspec
+      | none => copyBadDest o d op.frm
       | some path =>
         match parsePointer op.frm with
-        | none => .unspec
+        | none => .fail .parentUnreachable
         | some frm => (copySrc o d frm).bind (copyTail o size acc d path) := by
   unfold applyOp
   cases parsePointer op.path with
-  | none => rfl
+  | none =>
+    simp only [hk, reduceCtorEq, false_and, if_false, copyBadDest]
+    cases parsePointer op.frm with
+    | none => rfl
+    | some frm => cases frm <;> rfl
   | some path =>
     simp only [hk]
     cases parsePointer op.frm with
@@ -232,15 +262,21 @@ theorem sizeRel_noncopy (r0 : Res (Value × Nat)) (acc : Nat) :
   | fail c => exact ⟨c, rfl⟩
   | unspec => trivial
 
+theorem sizeRel_refl (r : Res (Value × Nat)) : SizeRel r r := by
+  cases r with
+  | ok p => exact .inl ⟨p.2, rfl⟩
+  | fail c => exact ⟨c, rfl⟩
+  | unspec => trivial
+
 theorem applyOp_sizeRel (o : Opts) (size acc : Nat) (d : Value) (op : Op) :
     SizeRel (applyOp o 0 0 d op) (applyOp o size acc d op) := by
   by_cases hk : op.kind = .copy
   · rw [applyOp_copy o size acc d op hk, applyOp_copy o 0 0 d op hk]
     cases parsePointer op.path with
-    | none => trivial
+    | none => exact sizeRel_refl _
     | some path =>
       cases parsePointer op.frm with
-      | none => trivial
+      | none => exact ⟨_, rfl⟩
       | some frm =>
         simp only []
         cases copySrc o d frm with
